@@ -141,6 +141,49 @@ fn flip_bit(b: &[u8], i: usize) -> Vec<u8> {
     v
 }
 
+/// v3.public: wrong keys that are mathematically related to the token - every key recoverable from the
+/// token's own ECDSA signature (computed by the reference, spec/p384_recover.py), under the specification's
+/// digest and under the digest of an implementation that forgot to bind the public key into the PAE.
+fn p384_recovered_keys_pass(acc: &mut Acc) {
+    let dir = crate::report::verif_dir();
+    let pool = domains::key_pool(Proto::V3P);
+    let mut cases: Vec<(IssueCase, String, Layer)> = Vec::new();
+    for (ki, k) in pool.iter().enumerate() {
+        for (fo, ao) in [(None, None), (Some("f".to_string()), Some("{\"a\":1}".to_string()))] {
+            for layer in Layer::ALL {
+                let case = IssueCase::new(Proto::V3P, layer, k, None, &domains::message(17 + ki, 0), &fo, &ao);
+                if let Some(t) = issue_with_control(&case, acc) {
+                    cases.push((case, t, layer));
+                }
+            }
+        }
+    }
+    let inp = dir.join("target").join("c04-recover-in.json");
+    let outp = dir.join("target").join("c04-recover-out.json");
+    let _ = std::fs::create_dir_all(dir.join("target"));
+    let list: Vec<serde_json::Value> = cases.iter().map(|(c, t, _)| json!({"token": t, "pk": c.pk_hex, "footer": c.footer, "assertion": c.assertion})).collect();
+    std::fs::write(&inp, serde_json::to_string(&list).unwrap()).unwrap_or_else(|_| crate::report::machinery_error("cannot write recover input"));
+    let st = std::process::Command::new("python3").arg(dir.join("spec/p384_recover.py")).arg(&inp).arg(&outp).output();
+    if !matches!(&st, Ok(o) if o.status.success()) {
+        crate::report::machinery_error("spec/p384_recover.py failed");
+    }
+    let Ok(txt) = std::fs::read_to_string(&outp) else { crate::report::machinery_error("no recover output") };
+    let Ok(res) = serde_json::from_str::<Vec<serde_json::Value>>(&txt) else { crate::report::machinery_error("recover output is not JSON") };
+    let mut n = 0u64;
+    for ((case, token, _), r) in cases.iter().zip(res.iter()) {
+        for cand in r["candidates"].as_array().cloned().unwrap_or_default() {
+            let mut pres = Presentation::of(case, token);
+            pres.pk_hex = cand.as_str().unwrap_or("").to_string();
+            check("C04", "key-recovered-from-the-signature", case, token, &pres, None, acc);
+            n += 1;
+        }
+    }
+    acc.choice_points += n;
+    if n == 0 {
+        crate::report::machinery_error("no recovered P-384 key was produced (vacuous)");
+    }
+}
+
 pub fn run_c04(tier: &str) -> i32 {
     let run = Run::new("C04", tier);
     let quick = tier == "quick";
@@ -212,10 +255,13 @@ pub fn run_c04(tier: &str) -> i32 {
     });
     let mut merged = Acc::merge_all(accs);
     merged.merge(reuse_pass("C04", &Proto::ALL));
+    let mut racc = Acc::default();
+    p384_recovered_keys_pass(&mut racc);
+    merged.merge(racc);
     finish(
         run,
         merged,
-        json!({"space": "protocol x layer x ordered pairs of pool keys x message x footer/assertion; all single-bit neighbours of the accepting key (local: both directions); P-384 other-parity point; one parser object parsing the same token under the right and a wrong key in both orders",
+        json!({"space": "protocol x layer x ordered pairs of pool keys x message x footer/assertion; all single-bit neighbours of the accepting key (local: both directions); P-384 other-parity point; one parser object parsing the same token under the right and a wrong key in both orders; v3.public: every other key recoverable from the token's own signature (reference-computed)",
                "distinct_rule": "distinct (token, presented key, footer, assertion, layer) presentations", "caps_hit": []}),
     )
 }
@@ -465,6 +511,57 @@ fn confusion_keys(x: Proto, kx: &KeyMat, y: Proto) -> Vec<(String, Vec<u8>)> {
     v
 }
 
+/// Tokens "X header, Y algorithm" made by the independent reference R1 (spec/hybrid_tokens.py): Y's own
+/// algorithm, key and payload layout, but X's header in the text and in the pre-authentication encoding.
+/// Y's entry points must refuse them (the header names X); Y's genuine token is the control.
+fn hybrid_pass(acc: &mut Acc) {
+    let dir = crate::report::verif_dir();
+    let out = dir.join("target").join("c07-hybrid.json");
+    let _ = std::fs::create_dir_all(dir.join("target"));
+    let st = std::process::Command::new("python3").arg(dir.join("spec/hybrid_tokens.py")).arg(&out).output();
+    let ok = matches!(&st, Ok(o) if o.status.success());
+    let Ok(txt) = std::fs::read_to_string(&out) else { crate::report::machinery_error("spec/hybrid_tokens.py produced nothing") };
+    if !ok {
+        crate::report::machinery_error("spec/hybrid_tokens.py failed");
+    }
+    let Ok(list) = serde_json::from_str::<Vec<serde_json::Value>>(&txt) else { crate::report::machinery_error("hybrid token file is not JSON") };
+    for h in &list {
+        let Some(y) = Proto::from_name(h["algo"].as_str().unwrap_or("")) else { continue };
+        let key = domains::key_pool(y)[0].clone();
+        let token = h["token"].as_str().unwrap_or("").to_string();
+        let footer: Option<String> = h["footer"].as_str().map(|s| s.to_string());
+        let genuine = h["genuine"].as_bool().unwrap_or(false);
+        // the "issue" this is judged against: Y's genuine token would be authentic; a hybrid never is
+        let case = IssueCase::new(y, Layer::Core, &key, Some(&[0u8; 32]), h["msg"].as_str().unwrap_or(""), &footer, &None);
+        for layer in Layer::ALL {
+            let mut pres = Presentation::of(&case, &token);
+            pres.layer = layer;
+            let (obs, _) = pres.present();
+            acc.executions += 1;
+            acc.impl_calls += 1;
+            acc.see(&(&token, layer));
+            if genuine {
+                if obs.is_ok() {
+                    acc.controls_ok += 1;
+                    acc.bump("hybrid:genuine-control-accepted");
+                } else {
+                    acc.skipped_control_failed += 1;
+                    acc.bump("hybrid:genuine-control-rejected(see C08)");
+                }
+            } else {
+                acc.bump(if obs.is_ok() { "hybrid:accepted" } else { "hybrid:rejected" });
+                if !obs.is_err() {
+                    acc.violate(
+                        format!("C07|{}|{}|hybrid-header-{}|{}", y.name(), layer.name(), h["header"].as_str().unwrap_or(""), if obs.is_ok() { "accepted" } else { "panic" }),
+                        format!("a token with header {:?} whose payload was computed by the {} algorithm over a pre-authentication encoding naming that header was not rejected by the {} {} entry point: {}", h["header"].as_str().unwrap_or(""), y.name(), y.name(), layer.name(), obs.short()),
+                        json!({"issue": case, "issued_token": "", "presentation": pres, "tag": "hybrid"}),
+                    );
+                }
+            }
+        }
+    }
+}
+
 pub fn run_c07(tier: &str) -> i32 {
     let run = Run::new("C07", tier);
     let _ = tier;
@@ -534,10 +631,14 @@ pub fn run_c07(tier: &str) -> i32 {
         acc.choice_points += pts;
         acc
     });
+    let mut merged = Acc::merge_all(accs);
+    let mut hacc = Acc::default();
+    hybrid_pass(&mut hacc);
+    merged.merge(hacc);
     finish(
         run,
-        Acc::merge_all(accs),
-        json!({"space": "all 56 ordered pairs (X, Y), X != Y, x {verbatim, header rewritten to Y's} x key material shared between X and Y where such exists x message x footer x presenting layer",
+        merged,
+        json!({"space": "all 56 ordered pairs (X, Y), X != Y, x {verbatim, header rewritten to Y's, Y-authentic token named X, reference-made hybrid 'X header in text and PAE, Y algorithm'} x key material shared between X and Y where such exists x message x footer x presenting layer",
                "ordered_pairs": units.len(), "distinct_rule": "distinct presentations", "caps_hit": []}),
     )
 }
